@@ -66,7 +66,7 @@ var replyFaults = map[string][]string{
 	"get-sth":             append(append([]string{}, rootGarbles...), "roothash-0", "roothash-31", "roothash-33"),
 	"get-sth-consistency": append(append([]string{}, rootGarbles...), "proof-absent", "proof-hash-0", "proof-hash-31", "proof-hash-33"),
 	"get-proof-by-hash":   append(append([]string{}, rootGarbles...), "proof-list-empty", "proof-hash-0", "proof-hash-31", "proof-hash-33"),
-	"get-entries":         append(append([]string{}, rootGarbles...), "surplus-leaves", "index-off", "out-of-order"),
+	"get-entries":         append(append([]string{}, rootGarbles...), "surplus-leaves", "index-off", "out-of-order", "inner-swap", "inner-duplicate", "inner-foreign"),
 	"get-entry-and-proof": append(append([]string{}, rootGarbles...), "leaf-absent", "leafvalue-empty", "proof-absent", "proof-empty"),
 }
 
@@ -228,6 +228,11 @@ func validRequest(ep string, variant int, beyond bool) request {
 	case "get-entries":
 		start := variant % fixSize
 		end := start + variant%3
+		if variant%2 == 1 {
+			// every other variant asks for a range of at least four stored leaves
+			start = variant % 2
+			end = start + 3 + variant%2
+		}
 		if beyond {
 			start = fixSize + variant%5
 			end = start + variant%3
@@ -332,6 +337,15 @@ func mutateReply(how string, rsp proto.Message) proto.Message {
 			}
 		case how == "index-off":
 			r.Leaves[len(r.Leaves)-1].LeafIndex++
+		case how == "inner-swap" && len(r.Leaves) >= 4:
+			// both ends in place, two inner leaves exchanged
+			r.Leaves[1], r.Leaves[2] = r.Leaves[2], r.Leaves[1]
+		case how == "inner-duplicate" && len(r.Leaves) >= 4:
+			r.Leaves[2] = proto.Clone(r.Leaves[1]).(*trillian.LogLeaf)
+		case how == "inner-foreign" && len(r.Leaves) >= 4:
+			r.Leaves[1].LeafIndex = r.Leaves[len(r.Leaves)-1].LeafIndex + 7
+		case strings.HasPrefix(how, "inner-"):
+			r.Leaves[0].LeafIndex += 2 // too few leaves to leave the ends alone
 		case how == "out-of-order":
 			if len(r.Leaves) >= 2 {
 				r.Leaves[0], r.Leaves[1] = r.Leaves[1], r.Leaves[0]
